@@ -279,7 +279,7 @@ impl<F: PathFetcher> MultiPathManager<F> {
             .0
             .managed_paths
             .peek_with(&(src, dst), |_, (handle, _)| {
-                handle.try_active_path().as_deref().map(|p| p.0.clone())
+                handle.try_unexpired_active_path(now)
             })
             .flatten();
 
@@ -332,7 +332,7 @@ impl<F: PathFetcher> MultiPathManager<F> {
             .0
             .managed_paths
             .peek_with(&(src, dst), |_, (handle, _)| {
-                handle.try_active_path().as_deref().map(|p| p.0.clone())
+                handle.try_unexpired_active_path(now)
             })
             .flatten();
 
@@ -345,7 +345,12 @@ impl<F: PathFetcher> MultiPathManager<F> {
                 let path_set = self.ensure_managed_paths(src, dst);
 
                 // Try to get active path, possibly waiting for initialization/update
-                let active = path_set.active_path().await.as_ref().map(|p| p.0.clone());
+                let active = path_set
+                    .active_path()
+                    .await
+                    .as_ref()
+                    .map(|p| p.0.clone())
+                    .and_then(|p| PathSetHandle::unless_expired(p, now));
                 #[cfg(feature = "verif-hooks")]
                 crate::verif::yield_point("p.after_active").await;
 
